@@ -332,18 +332,23 @@ class Expander:
             tmp = Source('<body>', body_text)
             clos = tmp.closures_in(0, len(body_text))
             for rx_, v_ in clo_rx.items():
-                hit = None
+                nth = None          # None = every closure whose header+body starts with the pattern
+                mm_ = re.match(r'^(.*) #(\d+)$', rx_)
+                if mm_:
+                    rx_, nth = mm_.group(1), int(mm_.group(2))
+                seen_ = 0
+                hits = []
                 for idx_, (bar, hend, bs, be, is_block) in enumerate(clos):
-                    if idx_ + 1 in clo_secs:
-                        continue
-                    if re.search(rx_, body_text[bar:be]):
-                        hit = idx_ + 1
-                        break
-                if hit is None:
+                    if re.match(rx_, body_text[bar:be]):
+                        seen_ += 1
+                        if nth is None or seen_ == nth:
+                            hits.append(idx_ + 1)
+                if not hits:
                     # the closure is not there (any more): nothing to annotate
                     self.local_rewrites.append({'fn': label, 'regex': rx_, 'replacement': '<closure contract: no closure matches>', 'count': 0})
                     continue
-                clo_secs[hit] = v_
+                for h_ in hits:
+                    clo_secs[h_] = v_
         if clo_secs:
             tmp = Source('<body>', body_text)
             clos = tmp.closures_in(0, len(body_text))
